@@ -544,7 +544,7 @@ def run(ctx):
         positive = tm is not None and all(v > 0 for v in tm.values())
         ctx.count('repeated-nodes:' + m['kind'] + (':all-metrics-positive' if positive else ':some-metric-not-positive (implicit weights skipped)'))
         combos = [('effective', 'none'), ('mean', 'false'), ('mean', 'explicit')] + ([('mean', 'implicit')] if positive else [])
-        e2n_block(ctx, rng, m, G.to_json(m), k, ne >= 2, stream='repeated-nodes', combos=combos, tie=False)
+        e2n_block(ctx, rng, m, G.to_json(m), k, ne >= 2, stream='repeated-nodes', combos=combos, tie=True)
 
 
 def gen_degenerate(rng, k):
